@@ -388,3 +388,27 @@ Definition ex_seps : list chars := [[]; []; la (String (ascii_of_nat 10) "  "); 
 Lemma ex_layout : seps_ok ex_seps (sx_tokens ex_sx) = true /\ sx_wf ex_sx = true
   /\ render ex_seps (sx_tokens ex_sx) = la ("(list" ++ String (ascii_of_nat 10) "  '(a ""x y"")  #(1))").
 Proof. repeat split; reflexivity. Qed.
+
+(* the second checker: a pretty-printed text against the plain printer's text *)
+Lemma sx_eqb_eq : forall a b, sx_eqb a b = true -> a = b.
+Proof.
+  induction a using sx_ind2; destruct b; cbn [sx_eqb]; intro Hb; try discriminate.
+  - f_equal. apply chars_eqb_eq. exact Hb.
+  - f_equal. apply chars_eqb_eq. exact Hb.
+  - f_equal. revert l0 Hb. induction l as [|x r IH]; destruct l0 as [|y r0]; intro Hb; try discriminate; [reflexivity|].
+    apply andb_true_iff in Hb. destruct Hb as [H1 H2].
+    pose proof (Forall_inv H) as Hx. pose proof (Forall_inv_tail H) as Hr. f_equal; [apply Hx; exact H1|apply IH; assumption].
+  - f_equal. apply IHa. exact Hb.
+  - apply andb_true_iff in Hb. destruct Hb as [Ho Hb]. apply chars_eqb_eq in Ho. subst. f_equal.
+    revert l0 Hb. induction l as [|x r IH]; destruct l0 as [|y r0]; intro Hb; try discriminate; [reflexivity|].
+    apply andb_true_iff in Hb. destruct Hb as [H1 H2].
+    pose proof (Forall_inv H) as Hx. pose proof (Forall_inv_tail H) as Hr. f_equal; [apply Hx; exact H1|apply IH; assumption].
+Qed.
+
+Theorem same_reading_sound : forall a b, same_reading a b = true ->
+  exists x y, mread a = Some x /\ mread b = Some y /\ norm_sx x = norm_sx y.
+Proof.
+  intros a b H. unfold same_reading in H.
+  destruct (mread a) as [x|]; [|discriminate]. destruct (mread b) as [y|]; [|discriminate].
+  exists x, y. repeat split. apply sx_eqb_eq. exact H.
+Qed.
